@@ -136,10 +136,13 @@ def explore_inverse_power(task):
                                        solve.to_smt2(path.hyp()), expect="unsat", timeout_s=120,
                                        info=dict(info, exception=repr(path.exception)), group="ipp/no-arithmetic-failure"))
             continue
-        queries += harness.path_queries(path, prefix="%s/p%d/" % (tag, npaths), group_prefix="ipp/", timeout_s=120,
-                                        extra_info=info)
+        queries += harness.path_queries(path, prefix="%s/p%d/" % (tag, npaths), group_prefix="ipp/",
+                                        timeout_s=IPP_TIMEOUT[0], solver="portfolio", extra_info=info)
     return {"paths": npaths, "queries": queries, "part": "inverse_power", "explore_s": time.time() - t0,
             "undecided_feasibility": ex.n_unknown}
+
+
+IPP_TIMEOUT = [120]
 
 
 # ------------------------------------------------------------------------------------------------ hard core
@@ -604,6 +607,7 @@ def main():
     NATIVE["dir"] = chk.scratch
     translator_validation(chk)
     if chk.want("inverse_power"):
+        IPP_TIMEOUT[0] = 600 if chk.thorough else 120
         tasks = [(p, dim, dr, sg) for p in powers for dim in dims for dr in range(dim)
                  for sg in ("repulsive", "attractive")]
         if not chk.thorough:
